@@ -125,11 +125,15 @@ def check_case(ctx, case, vlist=None):
             return
         base_sig = lambda ren: outcome_sig(out, ren)  # noqa
         ctx.extra.setdefault("outcomes", {})[canon.jhash(case)] = canon.jhash(outcome_sig(out))
+        if ctx.hashseed in (None, "0"):
+            ctx.extra.setdefault("cases", {})[canon.jhash(case)] = case
         ctx.count("hashseed_outcomes")
     else:
         out = util_call(case["util"], spec, case.get("vector"))
         base_sig = lambda ren: ({"ok": canon.scores_c(out.value, ren)} if out.ok else {"exc": out.etype})  # noqa
         ctx.extra.setdefault("outcomes", {})[canon.jhash(case)] = canon.jhash(base_sig(None))
+        if ctx.hashseed in (None, "0"):
+            ctx.extra.setdefault("cases", {})[canon.jhash(case)] = case
         ctx.count("hashseed_outcomes")
     for kind, vs, pi in (vlist if vlist is not None else variants(rnd, spec)):
         ident = (vs == spec)
@@ -195,14 +199,40 @@ def post(results, fails, counters):
                 compared += 1
                 if base[k] != o[k]:
                     fails.append({"mech": None, "what": f"outcome differs between PYTHONHASHSEED={rs[0]['hashseed']} and {r['hashseed']}",
-                                  "case": {"shard": sh, "case_hash": k, "hashseeds": [rs[0]["hashseed"], r["hashseed"]]},
+                                  "case": {"hashseed_case": rs[0]["extra"].get("cases", {}).get(k), "shard": sh, "case_hash": k,
+                                           "hashseeds": [rs[0]["hashseed"], r["hashseed"]]},
                                   "detail": {"a": base.get(k), "b": o.get(k)}})
     counters["hashseed_pairs_compared"] = compared
     return {"coverage": {"hashseed_pairs_compared": compared}}
 
 
+def _sig_of(case):
+    if case.get("cfg") is not None:
+        out, r = run_election(case["cfg"], case["profile"])
+        return canon.jhash(outcome_sig(out))
+    out = util_call(case["util"], case["profile"], case.get("vector"))
+    return canon.jhash({"ok": canon.scores_c(out.value)} if out.ok else {"exc": out.etype})
+
+
 def replay(ctx, case):
     if "base" in case:
         check_case(ctx, case["base"], vlist=[(case["variant"], case["vspec"], case.get("pi"))])
+    elif case.get("hashseed_case"):
+        # re-execute the one case in fresh interpreters under the two hash seeds and compare
+        import json
+        import os
+        import subprocess
+        from .. import env
+
+        sigs = {}
+        for hs in case["hashseeds"]:
+            code = ("import sys, json; sys.path.insert(0, %r); from vk import env; env.bootstrap(); from vk.mon import c08; "
+                    "print('SIG', c08._sig_of(json.loads(sys.stdin.read())))" % env.VERIF)
+            r = subprocess.run([env.PYTHON, "-c", code], input=json.dumps(case["hashseed_case"]), capture_output=True, text=True,
+                               env=dict(os.environ, PYTHONHASHSEED=str(hs), PYTHONDONTWRITEBYTECODE="1"), cwd=env.VERIF, timeout=600)
+            sigs[hs] = [ln for ln in r.stdout.splitlines() if ln.startswith("SIG")][-1:] or [r.stderr[-300:]]
+        ctx.case(case, nontrivial=True)
+        if len({str(v) for v in sigs.values()}) > 1:
+            ctx.fail(f"outcome differs between PYTHONHASHSEED={case['hashseeds'][0]} and {case['hashseeds'][1]}", case, {"sigs": sigs})
     else:
         ctx.count("hashseed_replay_not_supported")
